@@ -27,6 +27,7 @@ EXTENDS Integers, Sequences, FiniteSets, TLC, Json
 
 CONSTANTS EB,        \* epoch blocks (20 in the Tester)
           StaleP,    \* fixation stale period = BlocksToSave (200)
+          BT,        \* time units per ordinary block (1 in the model, 300 s on the real chain)
           MaxOps,    \* operation budget
           MaxMonths, \* month ticks per behaviour
           GenHist,   \* record history (generator / trace)
@@ -312,18 +313,20 @@ OneBlock(S, h, t) ==
                        !.p = @ \/ (\E c \in Consumers : ts[c].p) \/ (\E p \in PlanIdx : tp[p].p)]
   IN IF S2.p THEN S2 ELSE FireMonths(S2, h, t)
 
-\* heights in (h, hEnd] at which something is scheduled (long advances jump from one to the next)
-Busy(S, h, hEnd) ==
+\* heights in (h, hEnd] at which something is scheduled (long advances jump from one to the next); t = time at h,
+\* every ordinary block adds BT time units, so a month timer e > t is due at height h + ceil((e - t) / BT)
+Busy(S, h, t, hEnd) ==
   LET x0 == {k[1] + 1 : k \in DOMAIN S.ct}
            \cup UNION {UNION {{S.pl[p][v].del, S.pl[p][v].stale} : v \in DOMAIN S.pl[p]} : p \in PlanIdx}
            \cup UNION {UNION {{S.sv[c][v].del, S.sv[c][v].stale, v} : v \in DOMAIN S.sv[c]} : c \in Consumers}
+           \cup {h + ((x[1] - t + BT - 1) \div BT) : x \in {y \in S.mt : y[1] > t}}
   IN {x \in x0 : x > h /\ x <= hEnd}
 RECURSIVE Blocks(_, _, _, _)
 Blocks(S, h, t, n) ==    \* n ordinary blocks starting after height h / time t
   IF n = 0 \/ S.p THEN S
-  ELSE LET b == Busy(S, h, h + n) IN
+  ELSE LET b == Busy(S, h, t, h + n) IN
        IF b = {} THEN S
-       ELSE LET x == Min(b) IN Blocks(OneBlock(S, x, t + (x - h)), x, t + (x - h), n - (x - h))
+       ELSE LET x == Min(b)  tx == t + (x - h) * BT IN Blocks(OneBlock(S, x, tx), x, tx, n - (x - h))
 
 -----------------------------------------------------------------------------
 (* Transactions (atomic: on S.err nothing is installed) *)
@@ -443,7 +446,7 @@ Drain(cr, keep)    == Tx(DrainTx(cr, keep), Rec("drain", cr, "", "", keep, FALSE
 
 Adv(S, n, r) == /\ ~panicked
                 /\ Install(S) /\ panicked' = S.p
-                /\ now' = now + n /\ tm' = tm + n
+                /\ now' = now + n /\ tm' = tm + n * BT
                 /\ UNCHANGED nmonths
                 /\ Record(r)
 Block == Adv(Blocks(Cur, now, tm, 1), 1, Rec("block", "", "", "", 0, FALSE, 1))
